@@ -145,6 +145,9 @@ func checkC16(p *Prog, r *Report) {
 	r.Rule("R7", "every refresh goes through FeatureLocal.SetData, which notifies subscribers exactly once iff the store succeeded")
 	notifyCountRule(p, r, "R7")
 
+	c16FeatureKnown(p, r)
+	r.Rule("R9", "a refresh reaches every subscriber: NotifySubscribers sends one Notify per entry and leaves its loop only when the entries are exhausted (shared with C08-R5)")
+	fanoutRule(p, r, "R9")
 	r.Rule("R8", "RemoveEntity stops the heartbeat of the removed entity whenever a heartbeat manager is present")
 	dli := p.LookupIface("api", "DeviceLocalInterface")
 	for _, fn := range p.ImplsOf(dli, "RemoveEntity") {
@@ -394,4 +397,82 @@ func c16Loop(p *Prog, ls *Lockset, r *Report) {
 			}
 		}
 	}
+}
+
+// c16FeatureKnown: the refresh goroutine calls SetData on the manager's local
+// feature field. The constructor leaves that field nil (it is set when the
+// heartbeat function is added), so either every spawn of the goroutine or every
+// use inside it must be guarded by a nil test of the field: StartHeartbeat may
+// be called in any history without panicking.
+func c16FeatureKnown(p *Prog, r *Report) {
+	r.Rule("R10", "StartHeartbeat in any history: every interface-typed field of the manager that its constructor leaves nil and that the refresh goroutine invokes a method on is tested non-nil before the goroutine is spawned or before the invocation")
+	hmi := p.LookupIface("api", "HeartbeatManagerInterface")
+	if hmi == nil {
+		r.Undecided("R10", "anchor:api.HeartbeatManagerInterface", "", "interface not found")
+		return
+	}
+	n := 0
+	for _, start := range p.ImplsOf(hmi, "StartHeartbeat") {
+		var spawns []*ssa.Go
+		forEachCall(start, func(site ssa.CallInstruction) {
+			if g, ok := site.(*ssa.Go); ok {
+				spawns = append(spawns, g)
+			}
+		})
+		recvT := namedOf(start.Signature.Recv().Type())
+		// fields set by a constructor (a function returning the manager type that allocates it)
+		setByCtor := map[string]bool{}
+		for _, fn := range p.RepoFns("spine") {
+			if fn.Signature.Results().Len() != 1 || namedOf(fn.Signature.Results().At(0).Type()) != recvT || fn.Signature.Recv() != nil {
+				continue
+			}
+			for _, b := range fn.Blocks {
+				for _, ins := range b.Instrs {
+					if st, ok := ins.(*ssa.Store); ok {
+						if fa, ok := st.Addr.(*ssa.FieldAddr); ok && namedOf(fa.X.Type()) == recvT && fieldOfAddr(fa) != nil {
+							if c, isC := st.Val.(*ssa.Const); !isC || !c.IsNil() {
+								setByCtor[fieldOfAddr(fa).Name()] = true
+							}
+						}
+					}
+				}
+			}
+		}
+		for _, g := range spawns {
+			target := g.Call.StaticCallee()
+			if target == nil || target.Blocks == nil {
+				continue
+			}
+			forEachCall(target, func(site ssa.CallInstruction) {
+				c := site.Common()
+				if !c.IsInvoke() {
+					return
+				}
+				ld, ok := c.Value.(*ssa.UnOp)
+				if !ok {
+					return
+				}
+				fa, ok := ld.X.(*ssa.FieldAddr)
+				if !ok || namedOf(fa.X.Type()) != recvT || fieldOfAddr(fa) == nil {
+					return
+				}
+				fname := fieldOfAddr(fa).Name()
+				if setByCtor[fname] {
+					return
+				}
+				n++
+				guarded := func(b *ssa.BasicBlock) bool {
+					for _, gd := range Guards(b) {
+						if x, trueNil, ok := nilTest(gd.Cond); ok && trueNil != gd.Val && strings.HasSuffix(Path(x), "."+fname) {
+							return true
+						}
+					}
+					return false
+				}
+				ok2 := guarded(site.Block()) || guarded(g.Block())
+				r.Check("R10", fmt.Sprintf("%s|%s.%s()", FnName(target), fname, c.Method.Name()), ok2, p.InstrPos(site), fmt.Sprintf("field %s is nil until the heartbeat function is added; the goroutine calls %s on it; nil test before the spawn or before the call: %v", fname, c.Method.Name(), ok2))
+			})
+		}
+	}
+	r.Floor("R10", "uses of constructor-nil fields in the refresh goroutine", n, 1)
 }
